@@ -114,7 +114,12 @@ def ob_execute(n_points, n_trials, dname, mode):
         import pandas as pd
         layers = [stubs.pool_layer(), {pd.DataFrame: lite_dataframe}]
         with env(*layers, allow_seed=True):
-            grid = {"p": list(range(n_points))} if n_points != 4 else {"p": [0, 1], "q": [0, 1]}
+            if n_points == 4:
+                grid = {"p": [0, 1], "q": [0, 1]}
+            elif n_points == 3 and n_trials == 2:
+                grid = [{"p": [0]}, {"p": [1], "q": [5, 6]}]          # a list of sub-grids
+            else:
+                grid = {"p": list(range(n_points))}
             points = expected_points(grid)
             scores = [[sym.real(f"s{i}.{j}") for j in range(n_trials)] for i in range(len(points))]
             algo = RecordingOptimizer(scores, points, direction)
